@@ -3,6 +3,7 @@ package adapt
 import (
 	"encoding/json"
 	"fmt"
+	"sort"
 	"strings"
 
 	"github.com/containerd/nri/pkg/api"
@@ -163,7 +164,38 @@ func generatorApplies(f string) bool {
 
 // ---- judging --------------------------------------------------------------------------
 
+// observedOrder returns the case with its chain in the order in which this execution's
+// plugins were actually asked: equally indexed plugins (the twin fixture) have no prescribed
+// relative order, so the model follows the order of their handler entries. Plugins with
+// different indices keep their index order.
+func observedOrder(ex *execution) Case {
+	c := ex.c
+	first := map[int]int{}
+	for n, pi := range ex.invoked {
+		if _, ok := first[pi]; !ok {
+			first[pi] = n
+		}
+	}
+	idx := fixtureSpecs[ex.fixture].idx
+	chain := append([]Script{}, c.Chain...)
+	sort.SliceStable(chain, func(a, b int) bool {
+		pa, pb := chain[a].Plugin, chain[b].Plugin
+		if idx[pa] != idx[pb] {
+			return idx[pa] < idx[pb]
+		}
+		na, oka := first[pa]
+		nb, okb := first[pb]
+		if oka && okb {
+			return na < nb
+		}
+		return oka && !okb
+	})
+	c.Chain = chain
+	return c
+}
+
 func judge(ex *execution) Verdicts {
+	ex.c = observedOrder(ex)
 	c := ex.c
 	e := Predict(c)
 	v := Verdicts{Expect: e}
